@@ -100,7 +100,7 @@ impl expr::Expr
 			
 			expr::Expr::Slice(_, _, left_expr, right_expr, _) =>
 			{
-				let left = left_expr.try_eval_usize()? + 1;
+				let left = left_expr.try_eval_usize()?;
 				let right = right_expr.try_eval_usize()?;
 
 				if right > left
@@ -108,7 +108,7 @@ impl expr::Expr
 					return None;
 				}
 
-				Some(left - right)
+				Some(left + 1 - right)
 			}
 			
 			expr::Expr::SliceShort(_, _, size_expr, _) =>
